@@ -64,6 +64,8 @@ type Sim struct {
 	dupEvidence         map[string]bool
 	effective           map[string]bool // "height/index" of deliveries with a non-empty diff
 	addrIdx             map[string]int
+	nodeSince           map[string]int64            // C24: height at which the current record of a node key appeared (own record)
+	waitingSince        map[string]int64            // C24: height at which its waiting-to-unstake entry appeared (own record)
 	jailEnd             map[string]time.Time        // C25: end of the downtime jail period per node, the simulator's own record
 	jailEdited          map[string]bool             // C25: the node was edit-staked while serving that period
 	restartedSinceBlock bool                        // the node was restarted and has not executed a block since
